@@ -43,11 +43,12 @@ SEQ_PATHS = ["/p", "/d/e/r"]
 ALPHA = ["a", "b", "ab", "..", ".", "a.b", "a b", "é"]
 BOUNDS = {
     "quick": {"sequences": "every sequence of 3 operations over 2 keys x 2 paths (1 and 3 segments) from the empty store, partitioned by the first two opcodes; stores: memory, local", "values": "one value per key: symbolic ASCII str (<= 1 char) for k0; None or 2 bytes for k1 (symbolic selector)", "alias": "pairs of paths of 1..3 segments over {a, b, ab, .., .} (indices chosen by the solver; the two 3-segment paths over {a, b, ab})", "loc": "two symbolic path strings of <= 3 characters each after the leading slash (any code point)", "create": "every str of length <= 3"},
-    "thorough": {"sequences": "every sequence of 4 operations, partitioned by the first two opcodes; stores: memory, local, local+cache", "values": "as quick", "alias": "pairs of paths of 1..3 segments over {a, b, ab, .., ., a.b, 'a b', e-acute}", "loc": "two symbolic path strings of <= 4 characters each", "create": "every str of length <= 4"},
+    "thorough": {"order": "the whole quick tier first, then the deeper queries below as far as the wall budget of the tier allows (the evidence lists what was not run)", "sequences": "every sequence of 4 operations, partitioned by the first two opcodes; stores: memory, local, local+cache", "values": "as quick", "alias": "pairs of paths of 1..3 segments over {a, b, ab, .., ., a.b, 'a b', e-acute}", "loc": "two symbolic path strings of <= 4 characters each", "create": "every str of length <= 4"},
 }
 OUTSIDE = ["paths with empty segments (doubled / trailing slashes)", "fully symbolic path strings through the whole store (the segment alphabet is the bound there; loc.* covers the path -> location mapping on symbolic strings)", "a path committed to a key whose blob was never stored (dds commits paths only after storing)", "DBFS store (see C19)"]
 ASSUMPTIONS = ["file-system model = POSIX semantics as validated by the differential self-test", "content-addressed use: one value per key", "clock stub: meta timestamp is a constant"]
-BUDGET_S = {"thorough": 1200}  # wall budget of the thorough tier: queries not started by then are reported as not run
+BUDGET_S = {"thorough": 1500}  # wall budget of the thorough tier: queries not started by then are reported as not run
+THOROUGH_INCLUDES_QUICK = True  # thorough = the quick queries first, then the deeper ones within the wall budget
 LAST_DETAIL = [""]
 OPS = ["store", "has", "fetch", "sync", "fpaths", "reopen"]
 
